@@ -78,7 +78,8 @@ def generate(R, tier, focus):
     cart = inner['region']['kind'] == 'cart'
     extra = {
         # events channel: re-order the SAME catalog object in place after it was evaluated (per-object caches)
-        'same_object': channel == 'events' and R.random() < 0.4,
+        'same_object': channel in ('events', 'cells') and R.random() < 0.4,
+        'in_place_array': R.random() < 0.5,
         # gridded world delivered as a forecast file (cells in world order) instead of in memory
         'delivery': 'file' if (kind == 'grid' and cart and R.random() < 0.3) else 'memory',
         # observed catalog delivered through its JSON form (carries its region along)
@@ -242,7 +243,8 @@ def _execute(scn, ctx, store, rng):
         ctx.count('cfg:forecast_delivered_as_file')
     if env['obs_via_json']:
         ctx.count('cfg:observed_catalog_delivered_as_json')
-    same_object = scn.get('same_object') and ch == 'events' and scn['kind'] == 'grid'
+    same_object = scn.get('same_object') and ch in ('events', 'cells') and scn['kind'] == 'grid' and \
+        env['delivery'] == 'memory' and not env['obs_via_json']
     if same_object:
         ctx.count('cfg:same_catalog_object_reordered_in_place')
     for ti, t in enumerate(scn['tests']):
@@ -269,8 +271,17 @@ def _execute(scn, ctx, store, rng):
                         outs = None
                         break
                 if objs is not None and which == 'perm' and 'cat' in objs:
-                    idx = info['event_perm'].get(0, [])
-                    objs['cat'].catalog = objs['cat'].catalog[numpy.array(idx, dtype=int)] if idx else objs['cat'].catalog
+                    if ch == 'events':
+                        idx = info['event_perm'].get(0, [])
+                        if idx and scn.get('in_place_array'):
+                            arr = objs['cat'].catalog            # shuffle the stored array itself (no setter involved)
+                            arr[:] = arr[numpy.array(idx, dtype=int)]
+                        elif idx:
+                            objs['cat'].catalog = objs['cat'].catalog[numpy.array(idx, dtype=int)]
+                    else:
+                        # cells channel: the same catalog object is re-bound to the forecast with permuted cells
+                        objs['fc'] = make_fc(world, env)
+                        objs['cat'].region = objs['fc'].region
                 r = call(run_grid, test, world, world['obs'][0]['events'], t['seed'], t['nsim'], env, objs)
             else:
                 fw = wb if which == 'base' else wp
